@@ -2,7 +2,7 @@ _ALLOW = "null_distinct,null_multi_key,null_lit,group_noagg,key_expr,agg_expr,ca
 _OPTS = {"prop": "C01", "strata": "all", "neutral": "1", "allow": _ALLOW}
 ENTRY = {
     "level": "proof",
-    "families": [fam("SQL", 400, 20000, opts={"quick": _OPTS, "thorough": dict(_OPTS, sizes="tiny,small,small,mid")})],
+    "families": [fam("SQL", 400, 4000, opts={"quick": _OPTS, "thorough": dict(_OPTS, sizes="tiny,small,small,mid")})],
     "gen_items": [],
     "extra_props": ["IQE.Props.C01Pipeline"],
     "rule": "generated statements over generated catalogs (1-3 tables x 2-5 columns BIGINT/INTEGER/DOUBLE(dyadic)/VARCHAR/DATE/BOOLEAN, NULL density 0/10/50/100 %, "
